@@ -124,8 +124,8 @@ theorem build_iso_refl (c : Circuit) (h : ∀ o ∈ c.ops, OpOK (wiresN c.ne c.n
       obtain ⟨p, hp, rfl⟩ := List.mem_map.1 hn
       exact ⟨p.2, opOf_of_mem g hnames p hp⟩
   · -- the normalised DAG: its names are still distinct
-    obtain ⟨body, r, _, hid, _, hon, hnames, _⟩ := hi
-    have h0 : NInv _ g body := ⟨r, hon, hnames, hid⟩
+    obtain ⟨body, r, _, hid, _, hon, hnames, _, _, _, hbo0, hat0, htn0⟩ := hi
+    have h0 : NInv _ g body := ⟨r, hon, hnames, hid, htn0, _, linOK_build _ g c.ops body hbo0 hat0 hon⟩
     obtain ⟨body1, h1, _, _, _, _⟩ := unwrap_fold (g.nodes.filter (fun p => isWrapper p.2)) g body h0
       (hnames.sublist (List.Sublist.map _ List.filter_sublist))
       (by
